@@ -317,7 +317,9 @@ class Env:
         for fvn, consumer in S.ae.feedbacks.items():
             fb.append([vidx[fvn], idx['.'.join(consumer.split('.')[:2])]])
         levels = [self.nodes[t].get('level') or 0 for t in self.tags]
-        return [kinds, children, desc, ancestry, consumes, sorted(fb), levels]
+        order = sorted(self.tags)   # `sorted(task_names)` in schedule.update
+        ranks = [order.index(t) for t in self.tags]
+        return [kinds, children, desc, ancestry, consumes, sorted(fb), levels, ranks]
 
     # ------------------------------------------------------------------ observation
     def snapshot(self):
